@@ -209,4 +209,8 @@ theorem unmarshalStringLength_is_generated (data : Bytes) :
 theorem functions_translated :
     "protocol..marshalString" ∈ Gen.Fn.translated ∧ "protocol..unmarshalStringLength" ∈ Gen.Fn.translated := by decide
 
+/-- the budget v2 `Pack` hands to the encoder (`v2.MaxMetadataLength`, regenerated) fits the 16-bit `metadata_len` field of the frame: a
+block that exceeds it loses whole pairs (`budget`, `whole_pairs`), it can never lose the high bit of its length -/
+theorem budget_fits_length_field : Gen.v2_MaxMetadataLength < 2 ^ 16 ∧ Gen.v2_MaxMetadataLength = 65535 := by decide
+
 end OAP.C09
